@@ -261,6 +261,42 @@ def _roundtrip(R, si, only):
             if v:
                 R.mismatch("V:" + v[0], inner, f"{v}")
             scratch.rm(out)
+    # ---- fractional counts: the dump of a float-count cooler loaded back with --count-as-float / --field count:dtype=float ----
+    import cooler
+    fp = os.path.join(d, "float.cool")
+    fpix = {k: {"count": v["count"] + 0.25 * (1 + (k[0] + k[1]) % 3)} for k, v in pix.items()}
+    build.create(fp, bins, fpix, symm, dtypes={"count": np.float64})
+    fwant = {k: v["count"] for k, v in fpix.items()}
+    for fmt, dargs in (("coo", []), ("bg2", ["--join"])):
+        code, so, exc = build.cli(["dump"] + dargs + [fp])
+        if code != 0 or exc is not None:
+            R.mismatch("dump-fails", {"dargs": dargs, "float": True}, f"{exc!r}")
+            continue
+        txt = os.path.join(d, "fdump.txt")
+        with open(txt, "w") as fh:
+            fh.write(so)
+        for how in (["--count-as-float"], ["--field", "count:dtype=float"], ["--field", "count=%d:dtype=float64" % (3 if fmt == "coo" else 7)]):
+            for cs in (1, 2, nnz + 1):
+                kk += 1
+                inner = {"format": fmt, "float_counts_via": how, "chunksize": cs}
+                if only is not None and only != inner:
+                    continue
+                R.order = (R.order[0], kk)
+                R.ev(1, 1)
+                R.add("transitions", 2)
+                R.cls("roundtrip-float")
+                out = os.path.join(d, f"f{kk}.cool")
+                code, so2, exc = build.cli(["load", "-f", fmt, "--chunksize", cs, "--temp-dir", d] + how + ([] if symm else ["-N"]) + [bed, txt, out])
+                if code != 0 or exc is not None:
+                    R.mismatch("load-of-own-dump-fails", inner, f"code={code} exc={exc!r}")
+                    continue
+                got, rd = fx.read(out)
+                if {k: v["count"] for k, v in got.items()} != fwant:
+                    R.mismatch("reimported-cooler!=original", inner, f"got={got} want={fwant}")
+                v = h5ref.validate(out)
+                if v:
+                    R.mismatch("V:" + v[0], inner, f"{v}")
+                scratch.rm(out)
     scratch.rm(d)
 
 
